@@ -37,59 +37,62 @@ fn check_u8<L: flatty::Flat + flatty::vec::Length>(v: &FlexVec<u8, L>, m: &Model
 }
 
 macro_rules! hist_u8 {
-    ($name:ident, $L:ty, $buflen:expr, $steps:expr, $unwind:expr, $slot:expr) => {
+    ($name:ident, $L:ty, $buflen:expr, $pre:expr, $op:expr, $k:expr, $unwind:expr) => {
         #[kani::proof]
         #[kani::unwind($unwind)]
         fn $name() {
-            // BOUNDED: buffer of $buflen bytes, $steps steps
+            // BOUNDED: buffer of $buflen bytes; history = $pre pushes, then ONE operation ($op: 0 pop, 1 truncate($k), 2 clear),
+            // then a push; all values symbolic
             let mut buf = [0u8; $buflen];
             let mut j = 0;
             while j < $buflen { buf[j] = kani::any(); j += 1; }   // arbitrary prior contents (C20: default ignores them)
             let v = FlexVec::<u8, $L>::default_in_place(&mut buf).unwrap();
             let mut m = Model { n: 0, v: [0; CAP] };
-            check_u8(v, &m, $buflen);
-            let mut step = 0;
-            while step < $steps {
-                let op: u8 = kani::any();
-                kani::assume(op < 4);
-                if op == 0 {
-                    let x: u8 = kani::any();
-                    let before = m;
-                    let size_before = v.size();
-                    // room for one more item: slot + payload for the item, plus nothing else (the last item owns the rest)
-                    let fits = (m.n + 1) * ($slot + 1) <= $buflen - ($buflen % 1);
-                    match v.push(x) {
-                        Ok(r) => { assert!(*r == x, "C12: push returns a reference to a different item"); m.push(x); }
-                        Err(e) => {
-                            assert!(e.kind == ErrorKind::InsufficientSize, "C13: a refused push must report InsufficientSize");
-                            // C13: the refused push left everything as it was
-                            m = before;
-                            assert!(v.size() == size_before, "C13: size() changed by a refused push");
-                        }
-                    }
-                    let _ = fits;
-                } else if op == 1 {
-                    let r = v.pop();
-                    assert!(r.is_ok() == (m.n > 0), "C12: pop result differs from the abstract sequence");
-                    if m.n > 0 { m.n -= 1; }
-                } else if op == 2 {
-                    let k: usize = kani::any();
-                    kani::assume(k <= CAP + 1);
-                    v.truncate(k);
-                    m.truncate(k);
-                } else {
-                    v.clear();
-                    m.n = 0;
-                }
-                check_u8(v, &m, $buflen);
-                step += 1;
+            let mut p = 0;
+            while p < $pre {
+                let x: u8 = kani::any();
+                assert!(v.push(x).is_ok(), "C12: a push that fits was refused");
+                m.push(x);
+                p += 1;
             }
-            kani::cover!(m.n >= 2, "two items reached");
+            check_u8(v, &m, $buflen);
+            if $op == 0 {
+                let r = v.pop();
+                assert!(r.is_ok() == (m.n > 0), "C12: pop result differs from the abstract sequence");
+                if m.n > 0 { m.n -= 1; }
+            } else if $op == 1 {
+                v.truncate($k);
+                m.truncate($k);
+            } else {
+                v.clear();
+                m.n = 0;
+            }
+            check_u8(v, &m, $buflen);
+            // the vector keeps working after the step: one more push
+            let y: u8 = kani::any();
+            let size_before = v.size();
+            match v.push(y) {
+                Ok(r) => { assert!(*r == y, "C12: push returns a reference to a different item"); m.push(y); }
+                Err(e) => {
+                    assert!(e.kind == ErrorKind::InsufficientSize, "C13: a refused push must report InsufficientSize");
+                    assert!(v.size() == size_before, "C13: size() changed by a refused push");
+                }
+            }
+            check_u8(v, &m, $buflen);
         }
     };
 }
-hist_u8!(c12_hist_u8_u8_7b_3, u8, 7, 3, 10, 1);
-hist_u8!(c12_hist_u8_u16_8b_3, u16, 8, 3, 10, 2);
+hist_u8!(c12_hist_u8_u8_pre2_pop, u8, 7, 2, 0, 0, 10);
+hist_u8!(c12_hist_u8_u8_pre3_pop, u8, 7, 3, 0, 0, 10);
+hist_u8!(c12_hist_u8_u8_pre0_pop, u8, 3, 0, 0, 0, 8);
+hist_u8!(c12_hist_u8_u8_pre3_trunc1, u8, 7, 3, 1, 1, 10);
+hist_u8!(c12_hist_u8_u8_pre3_trunc2, u8, 7, 3, 1, 2, 10);
+hist_u8!(c12_hist_u8_u8_pre2_trunc2, u8, 7, 2, 1, 2, 10);
+hist_u8!(c12_hist_u8_u8_pre2_trunc5, u8, 7, 2, 1, 5, 10);
+hist_u8!(c12_hist_u8_u8_pre0_trunc1, u8, 3, 0, 1, 1, 8);
+hist_u8!(c12_hist_u8_u8_pre2_clear, u8, 7, 2, 2, 0, 10);
+hist_u8!(c12_hist_u8_u16_pre2_trunc1, u16, 8, 2, 1, 1, 10);
+hist_u8!(c12_hist_u8_u16_pre2_pop, u16, 8, 2, 0, 0, 10);
 
 /// refused pushes at every fill level of small buffers (C13): fill with pushes until one is refused, then the state is
 /// exactly the one before, and a later pop / push behaves as if the refused call had not happened
